@@ -186,7 +186,7 @@ def _send_key(step):
                                     q.get("id", ""), m.get("rfmt", ""))
 
 
-def subsample(cx, path, n):
+def subsample(cx, path, n, must=None):
     """Keep a seeded subset of n behaviours (quick tier: the model is checked exhaustively, the replay through
     the implementation is sampled). The sample is stratified by the last client messages (up to six, Sync aside) of a behaviour
     (type and names): TLC exports one behaviour per transition of the state graph, so a particular short
@@ -209,6 +209,21 @@ def subsample(cx, path, n):
     for k in order:
         rnd.shuffle(groups[k])
     keep = []
+    if must is not None:
+        # behaviours that reach a situation the check is about in particular are replayed first, all of them (up to n)
+        wanted = []
+        for i, l in enumerate(ls):
+            try:
+                if must(json.loads(l).get("steps", [])):
+                    wanted.append(i)
+            except Exception:
+                pass
+        rnd.shuffle(wanted)
+        keep = wanted[:n]
+        taken = set(keep)
+        for k in order:
+            groups[k] = [i for i in groups[k] if i not in taken]
+        log("[mc] %d exported behaviours reach the situation asked for; %d of them replayed" % (len(wanted), len(keep)))
     while len(keep) < n:
         progressed = False
         for k in order:
